@@ -43,16 +43,16 @@ CHECKS = {
     ),
     "C13": dict(
         category="proof",
-        text="partial. Proved in Lean 4 (no sorry, axioms propext/Classical.choice/Quot.sound): the product-to-sum identity sin^b z cos^c z = (i^b 2^(b+c))^-1 * sum C(c,k1) C(b,k2) (-1)^(b-k2) e^{i(2(k1+k2)-b-c)z} stated with the coefficient table of the executable model; for every finitely supported (signed) law the formula coded in get_trig_moment (table, division by I^(a+b) 2^(b+c), a-th derivative of the characteristic function, real part) equals sum p_j x_j^a sin^b x_j cos^c x_j, and the formula of get_exp_moment equals the a-th derivative of the mgf; the guard of get_func_moment (coded = documented since /repo e78913c: Sin/Cos together with Exp is rejected, every returned value is the true mixed moment); the models of mgf_exists_at for Exponential/Gamma/Laplace decide integrability of e^{tx} f(x). Tied to the code by an exact structural diff: the real get_func_moment runs on a stub distribution with uninterpreted hermitian transforms and the coefficient table of its result is compared with polar-model for all exponent triples up to the tier's bound. NOT proved: the values of the transcendental expectations themselves (closed forms of the transforms of each family, sympy's differentiation/evaluation, rounding to ~20 digits, the trigger/context glue in whole programs); these are compared numerically with mpmath quadrature of the defining integrals and with an independent interpreter on whole programs, with explicit tolerances - evidence, not proof.",
+        text="partial. Proved in Lean 4 (no sorry, axioms propext/Classical.choice/Quot.sound): the product-to-sum identity sin^b z cos^c z = (i^b 2^(b+c))^-1 * sum C(c,k1) C(b,k2) (-1)^(b-k2) e^{i(2(k1+k2)-b-c)z} stated with the coefficient table of the executable model; for every finitely supported (signed) law the formula coded in get_trig_moment (table, division by I^(a+b) 2^(b+c), a-th derivative of the characteristic function, real part) equals sum p_j x_j^a sin^b x_j cos^c x_j (also as coded since c7c1f2a, with the frequency-0 terms taken from the raw moment i^a E[X^a]), and the formula of get_exp_moment equals the a-th derivative of the mgf; the guard of get_func_moment (coded = documented since /repo e78913c: Sin/Cos together with Exp is rejected, every returned value is the true mixed moment); the models of mgf_exists_at for Exponential/Gamma/Laplace decide integrability of e^{tx} f(x). Tied to the code by an exact structural diff: the real get_func_moment runs on a stub distribution with uninterpreted hermitian transforms and the coefficient table of its result is compared with polar-model for all exponent triples up to the tier's bound. NOT proved: the values of the transcendental expectations themselves (closed forms of the transforms of each family, sympy's differentiation/evaluation, rounding to ~20 digits, the trigger/context glue in whole programs); these are compared numerically with mpmath quadrature of the defining integrals and with an independent interpreter on whole programs, with explicit tolerances - evidence, not proof.",
         design_ref="§4 C13; notes/C13.md",
-        note="Trusted: Lean kernel + propext/Classical.choice/Quot.sound; Lean compiler for polar-model; the stub distribution and sympy's expand used to read the table off the result; mpmath quadrature (two subdivisions, 42 digits) of textbook densities; harness/c13_lib.py (mini-parser, interpreter, factorisation over independent draws); passage from finitely supported laws to laws with a density is paper mathematics. Refusals (AssertionError at frequency 0 for Uniform/DiscreteUniform, NotImplementedError for Categorical) are counted, not violations. Known findings: F131, F132, F133 (F5 fixed in /repo e78913c; prepared patches in notes/C13_patches.md).",
+        note="Trusted: Lean kernel + propext/Classical.choice/Quot.sound; Lean compiler for polar-model; the stub distribution and sympy's expand used to read the table off the result; mpmath quadrature (two subdivisions, 42 digits) of textbook densities; harness/c13_lib.py (mini-parser, interpreter, factorisation over independent draws); passage from finitely supported laws to laws with a density is paper mathematics. Refusals (AssertionError for DiscreteUniform with Id >= 1 and some Beta cases, NotImplementedError for Categorical) are counted, not violations. Known finding: F132 (its patch would need an edit of a benchmark's #test lines; see known_findings.json). F5, F131, F133 are fixed in /repo (e78913c, 2697d27, c7c1f2a).",
         technique="Lean 4 proof of the combination formulas + exact structural correspondence on a stub distribution + numeric oracle (quadrature, independent interpreter)",
     ),
     "C15": dict(
         category="proof",
         text="partial. Proved in Lean 4 (no sorry; axioms propext/Classical.choice/Quot.sound) about a hand-written model of /repo/bayesnet: the flat index table[row + i*rows] of the `table` notation addresses P(child = i | row-th parent combination in itertools.product order); whatever mix of default/table/entries is given, an accepted CPT - and an accepted file (assembleNet) - has exactly one row per parent combination, each of the child's domain size and summing to 1 within the tolerance; the table, the per-entry (any order, any redundancy) and the default+entries notations of one conditional probability function import the same table; Kahn's sort as coded returns a permutation with parents first whenever its final assertion holds (topoOrder_isTopo); for a well-formed network (rows sum to exactly 1) on which the generator does not fail, one iteration of the generated if/elif/else program started in ANY state ends in a full assignment a with probability prod CPT entries (pointwise) and E g = sum_a joint(a) g(a) for every g of the network variables, hence the joint table sums to 1; the ratio E((x*ind)^k)/E(ind) the exact-inference query asks for equals E(X^k | evidence) for every k >= 0 (for k = 0 the repaired code asks E(ind) as numerator; the model follows it); E(count)(n) of the sampling-time program equals the recurrence countSeq, countSeq q n = (1-(1-q)^(n+1))/q for q != 0 and tends to 1/q for 0 < q <= 1. Tied to the code differentially on seeded BIF files (valid / rows-within-tolerance / reserved names / single and double structural faults / syntax faults) and the repository's .bif files: BifParser().parse_file vs assembleNet (tables, parents, class of the first error); the text of CodeGenerator.generate_code read by the shared reference semantics vs the joint table; the real CLI action (--exact_inference, --sample_time_until) vs enumeration (final value and per-iteration moments n = 0..3). NOT proved: the lark grammar, the random digits appended on name collisions (checked by rule), Python float summation at the tolerance edge (generator keeps 1e-9 away), and Polar's analysis pipeline itself (C01).",
         design_ref="§4 C15; notes/C15.md",
-        note="Trusted: Lean kernel + propext/Classical.choice/Quot.sound; Lean compiler for polar-model; harness/c15gen.py (BIF generator, printer and reader, reader of the generated Polar text), exact-decimal reading of printed floats, sympy exact evaluation of Polar's closed forms at integers, Polar/Sem.lean reference semantics for the law of the generated text. Time-outs of Polar's recurrence builder on networks with many 4-valued parents are counted, never violations. Known finding: F31 (sanitised names that are reserved words; tested patch in notes/C15_patches.md). F30 (sampling-time limit not taken), F32 (target power 0), F33/F34 (remainder probability / probability check in binary floating point) were found by this check and are fixed in /repo; their recurrence is a violation.",
+        note="Trusted: Lean kernel + propext/Classical.choice/Quot.sound; Lean compiler for polar-model; harness/c15gen.py (BIF generator, printer and reader, reader of the generated Polar text), exact-decimal reading of printed floats, sympy exact evaluation of Polar's closed forms at integers, Polar/Sem.lean reference semantics for the law of the generated text. Time-outs of Polar's recurrence builder on networks with many 4-valued parents are counted, never violations. No known finding left: F30 (sampling-time limit not taken), F31 (sanitised names that are reserved words), F32 (target power 0), F33/F34 (remainder probability / probability check in binary floating point) were found by this check and are fixed in /repo; a recurrence is a violation (no attribution function remains).",
         technique="Lean 4 proof (mixed-radix index, assembly invariants, invariant proof of Kahn's algorithm, path-probability induction along a topological order, partition of outcome lists, geometric sum and limit) + differential correspondence of parser, code generator and both queries against the Lean model and the enumerated joint law",
     ),
 }
